@@ -22,6 +22,7 @@ def kern_cov(rule, explanation):
             "distinct_len_residues_mod64_per_symbol": dict(sorted(res.items())),
             "distinct_alignments_mod64_per_symbol": dict(sorted(aln.items())),
             "cpu_levels_simulated": sorted(agg.sets.get("cpu_levels", [])),
+            **({"variants_run_with_a_length_over_4GiB_whole_vs_chained": dict(sorted(agg.cnts["lengths_over_4GiB"].items()))} if "lengths_over_4GiB" in agg.cnts else {}),
         }
     return f
 
@@ -88,9 +89,11 @@ def run_C20(ctx):
 
 def cov_C20(ctx, agg):
     c = kern_cov(
-        "per variant symbol: every len 0..1100 x alignments (6 random per len in quick, all 64 in thorough) x placement END/START/near-END; all-zero region with 0xFF neighbours must give 0; then a single non-zero byte (values 01/80/FF) at every position for len<=140 (quick) / <=600 (thorough), else first 8, last 8 and 8 random positions, with neighbours alternately 0x00 and 0xFF; plus regions up to 1 MiB; distinct by (symbol, len, alignment, placement); len>0 is non-trivial",
+        "per variant symbol: every len 0..1100 x alignments (6 random per len in quick, all 64 in thorough) x placement END/START/near-END; all-zero region with 0xFF neighbours must give 0; then a single non-zero byte (values 01/80/FF) at every position for len<=140 (quick) / <=600 (thorough), else first 8, last 8 and 8 random positions, with neighbours alternately 0x00 and 0xFF; plus regions up to 1 MiB and one region above 4 GiB per variant; distinct by (symbol, len, alignment, placement); len>0 is non-trivial",
         "answers compared with the definition (0 iff all bytes zero); region ends/starts at an inaccessible page")(ctx, agg)
     c["single_byte_positions_tested"] = dict(sorted(agg.cnts.get("single_byte_positions_tested", {}).items()))
+    c["regions_over_4GiB_in_fresh_processes"] = dict(sorted(agg.cnts.get("huge_region_children", {}).items()))
+    c["huge_region_note"] = sorted(agg.sets.get("huge_region", [])) or "4 GiB + 1 MiB + 40 bytes of the shared zero page (MAP_NORESERVE), single non-zero byte 5 bytes before the end; every variant in a child of its own, the dispatched entry point as first, second and third call of the process"
     c["exhaustive"] = False
     return c
 
@@ -119,7 +122,7 @@ def cov_C09(ctx, agg):
     st = agg.stats
     return {"rule": "inversion: random n x n (n<=128) in 10 families (random, duplicate row, linear combination, zero column at any index, proportional columns, scaled permutation, zero diagonal, bounded rank, zero row, sparse); library verdict compared with the reference determinant and in x out with I; generators compared with [I; 1/(i^j)] and [I; 2^((i-k)j)] for all (m,k), m<=48 and selected m up to 256; survivor patterns: EVERY k-subset for all (m,k) up to the listed m (Cauchy, and Vandermonde pairs documented safe) through gf_invert_matrix + ec_init_tables + ec_encode_data; minors of the parity block (size<=4) enumerated completely where listed, sampled otherwise; sampled full pipeline for large (m,k); distinct by hash of matrix / survivor set",
             "inversions": int(st.get("inversions", 0)), "singular_inputs": int(st.get("singular_inputs", 0)), "survivor_patterns": int(st.get("survivor_patterns", 0)),
-            "minors": int(st.get("minors", 0)), "recoveries_via_ec_encode_data": int(st.get("recoveries_via_ec_encode_data", 0)), "full_inverse_decodes_with_reused_tables": int(st.get("full_inverse_decodes_with_reused_tables", 0)),
+            "minors": int(st.get("minors", 0)), "recoveries_via_ec_encode_data": int(st.get("recoveries_via_ec_encode_data", 0)), "full_inverse_decodes_with_reused_tables": int(st.get("full_inverse_decodes_with_reused_tables", 0)), "incremental_decodes_in_scrambled_order": int(st.get("incremental_decodes_in_scrambled_order", 0)), "single_block_decodes_via_gf_vect_dot_prod": int(st.get("single_block_decodes_via_gf_vect_dot_prod", 0)),
             "explanation": "differential oracle against an independent GF(2^8) implementation (determinant by elimination, matrix product)"}
 
 
